@@ -4,6 +4,8 @@
     the layout-level model [sort_model] and the implementation are tied to it by correspondence. *)
 From AwkV Require Import Layout Ops_Sort Proofs_Sort Proofs_C06.
 From Coq Require Import Permutation Sorting.Sorted.
+From AwkV Require Import Valid Types AtAxis Typing Proofs_AtAxis Proofs_SortRef Proofs_SortRef2 Proofs_SortStr
+                         Proofs_SortCols Proofs_SortCols2 Proofs_SortCols3 Proofs_SortRef3.
 
 (* For a list of numbers with missing values: sort returns the sorted numbers followed by
    the missing values, argsort the positions realising that order followed by the positions
@@ -51,3 +53,219 @@ Theorem cmp_strict_weak_order : forall asc,
                  num_before asc x z = false /\ num_before asc z x = false).
 Proof. exact (fun asc => conj (num_before_irrefl asc) (conj (num_before_trans asc) (num_before_incomp asc))). Qed.
 Print Assumptions cmp_strict_weak_order.
+
+(* ================================================================ sort/argsort: layout model refines the spec *)
+Theorem sort_refines_spec_partial : forall asc argsort axis c vs,
+  Valid None c -> sfrag c = true -> to_list c = Ok vs -> sort_modelled asc argsort axis c = true ->
+  obs (sort_model asc argsort axis c) = sort_spec asc argsort axis (type_of c) vs.
+Proof. exact Proofs_SortRef2.sort_refines_spec_partial. Qed.
+Print Assumptions sort_refines_spec_partial.
+
+Theorem sort_modelled_on_innermost_axis : forall asc argsort axis c vs,
+  Valid None c -> sfrag c = true -> to_list c = Ok vs -> innermost axis (type_of c) = true ->
+  sort_modelled asc argsort axis c = true.
+Proof. exact innermost_modelled. Qed.
+Print Assumptions sort_modelled_on_innermost_axis.
+
+Theorem last_axis_is_innermost : forall c,
+  Valid None c -> no_empty c = true -> sortable (type_of c) = true ->
+  innermost (-1) (type_of c) = true /\ innermost (snd (minmax (type_of c)) - 1) (type_of c) = true.
+Proof. exact innermost_last_axis. Qed.
+Print Assumptions last_axis_is_innermost.
+
+Theorem sort_refines_spec_innermost_axis : forall asc argsort axis c vs,
+  Valid None c -> sfrag c = true -> to_list c = Ok vs -> innermost axis (type_of c) = true ->
+  obs (sort_model asc argsort axis c) = sort_spec asc argsort axis (type_of c) vs.
+Proof. exact sort_refines_spec_innermost. Qed.
+Print Assumptions sort_refines_spec_innermost_axis.
+
+Theorem sort_refines_spec_axis_minus_one : forall asc argsort c vs,
+  Valid None c -> sfrag c = true -> to_list c = Ok vs ->
+  obs (sort_model asc argsort (-1) c) = sort_spec asc argsort (-1) (type_of c) vs /\
+  obs (sort_model asc argsort (snd (minmax (type_of c)) - 1) c)
+  = sort_spec asc argsort (snd (minmax (type_of c)) - 1) (type_of c) vs.
+Proof. exact sort_refines_spec_last_axis. Qed.
+Print Assumptions sort_refines_spec_axis_minus_one.
+
+Theorem sort_model_reads_and_writes_keys :
+  (forall c vs, Valid None c -> leafish (type_of c) = true -> to_list c = Ok vs ->
+     exists ks, leaf_keys None c = Ok ks /\ keys_of c vs ks) /\
+  (forall dt kd ks, homog kd ks -> compat kd dt -> to_list (content_of_keys dt ks) = Ok (map val_of_okey ks)) /\
+  (forall asc argsort dt ks,
+     sort_leaves asc argsort (enumv (map val_of_okey ks)) = Ok (map val_of_okey (sort_keys asc argsort dt ks))).
+Proof. exact (conj leaf_keys_spec (conj content_of_keys_to_list sort_leaves_keys)). Qed.
+Print Assumptions sort_model_reads_and_writes_keys.
+
+Theorem sort_model_preserves_lengths : forall asc argsort axis c vs ws,
+  Valid None c -> sfrag c = true -> to_list c = Ok vs -> sort_modelled asc argsort axis c = true ->
+  obs (sort_model asc argsort axis c) = Ok ws ->
+  opts_on_leaves (type_of c) = true -> axis_above_strings (type_of c) axis = true -> map shape ws = map shape vs.
+Proof. exact Proofs_SortRef3.sort_model_preserves_lengths. Qed.
+Print Assumptions sort_model_preserves_lengths.
+
+Theorem sort_model_no_cross_list_movement : forall asc axis c vs ws ax,
+  Valid None c -> sfrag c = true -> to_list c = Ok vs -> sort_modelled asc false axis c = true ->
+  obs (sort_model asc false axis c) = Ok ws -> resolve_axis (type_of c) 0 axis = Ok ax ->
+  forall q0 l l', zlen q0 = ax ->
+  at_path q0 (VList vs) = Some (VList l) -> at_path q0 (VList ws) = Some (VList l') ->
+  forall q, Permutation (leaves_at q l') (leaves_at q l).
+Proof. exact Proofs_SortRef3.sort_model_no_cross_list_movement. Qed.
+Print Assumptions sort_model_no_cross_list_movement.
+
+(* ================================================================ strings: sorted as units, lexicographically on bytes *)
+Theorem str_cmp_irrefl : forall a, bytes_lt a a = false.
+Proof. exact bytes_lt_irrefl. Qed.
+Print Assumptions str_cmp_irrefl.
+
+Theorem str_cmp_trans : forall a b c, bytes_lt a b = true -> bytes_lt b c = true -> bytes_lt a c = true.
+Proof. exact bytes_lt_trans. Qed.
+Print Assumptions str_cmp_trans.
+
+Theorem str_cmp_total : forall a b, bytes_lt a b = false -> bytes_lt b a = false -> a = b.
+Proof. exact bytes_lt_total. Qed.
+Print Assumptions str_cmp_total.
+
+Theorem str_cmp_lexicographic : forall a b,
+  bytes_lt a b = true <->
+  (exists p x y r s, a = p ++ x :: r /\ b = p ++ y :: s /\ x < y) \/ (exists r y, b = a ++ y :: r).
+Proof. exact bytes_lt_lex. Qed.
+Print Assumptions str_cmp_lexicographic.
+
+Theorem str_cmp_ignores_flags : forall asc i j a b, key_before asc (KStr i a) (KStr j b) = str_before asc a b.
+Proof. exact str_before_flags. Qed.
+Print Assumptions str_cmp_ignores_flags.
+
+Theorem str_cmp_direction : forall asc a b, str_before asc a b = if asc then bytes_lt a b else bytes_lt b a.
+Proof. exact str_before_eq. Qed.
+Print Assumptions str_cmp_direction.
+
+Theorem str_cmp_strict_weak_order : forall asc,
+  (forall a, str_before asc a a = false) /\
+  (forall a b c, str_before asc a b = true -> str_before asc b c = true -> str_before asc a c = true) /\
+  (forall x y z, str_before asc x y = false -> str_before asc y x = false ->
+                 str_before asc y z = false -> str_before asc z y = false ->
+                 str_before asc x z = false /\ str_before asc z x = false) /\
+  (forall a b, str_before asc a b = false -> str_before asc b a = false -> a = b).
+Proof. exact Proofs_SortStr.str_cmp_strict_weak_order. Qed.
+Print Assumptions str_cmp_strict_weak_order.
+
+Theorem sort_result_strings : forall asc argsort l,
+  stringy l ->
+  sort_leaves asc argsort l =
+  Ok (if argsort
+      then map (fun e : Z * (bool * list Z) => VNum (DZ (fst e))) (sorted_strs asc l) ++ map (fun j => VNum (DZ j)) (none_pos l)
+      else map (fun e : Z * (bool * list Z) => VStr (fst (snd e)) (snd (snd e))) (sorted_strs asc l) ++ map (fun _ => VNone) (none_pos l)).
+Proof. exact sort_leaves_strings. Qed.
+Print Assumptions sort_result_strings.
+
+Theorem strings_sort_as_units : forall asc l,
+  Permutation (sorted_strs asc l) (strs l) /\
+  StronglySorted (fun a b : Z * (bool * list Z) => str_before asc (snd (snd b)) (snd (snd a)) = false) (sorted_strs asc l) /\
+  (forall a, filter (equivb (Z * (bool * list Z)) (strent_before asc) a) (sorted_strs asc l) =
+             filter (equivb (Z * (bool * list Z)) (strent_before asc) a) (strs l)).
+Proof. exact Proofs_SortStr.strings_sort_as_units. Qed.
+Print Assumptions strings_sort_as_units.
+
+Theorem sort_strings_equiv_is_same_bytes : forall asc a x,
+  equivb (Z * (bool * list Z)) (strent_before asc) a x = true <-> snd (snd a) = snd (snd x).
+Proof. exact strent_equiv_iff. Qed.
+Print Assumptions sort_strings_equiv_is_same_bytes.
+
+Theorem sort_strings_ascending : forall l pre a mid b post,
+  sorted_strs true l = pre ++ a :: mid ++ b :: post -> bytes_lt (snd (snd b)) (snd (snd a)) = false.
+Proof. exact strings_ascending. Qed.
+Print Assumptions sort_strings_ascending.
+
+Theorem sort_strings_descending : forall l pre a mid b post,
+  sorted_strs false l = pre ++ a :: mid ++ b :: post -> bytes_lt (snd (snd a)) (snd (snd b)) = false.
+Proof. exact strings_descending. Qed.
+Print Assumptions sort_strings_descending.
+
+Theorem str_prefix_before_extension : forall a y r, bytes_lt a (a ++ y :: r) = true.
+Proof. exact prefix_before_extension. Qed.
+Print Assumptions str_prefix_before_extension.
+
+(* ================================================================ column sort (non-innermost axes), spec level *)
+Theorem sort_leaves_length : forall asc a rows vs, sort_leaves asc a rows = Ok vs -> length vs = length rows.
+Proof. exact Proofs_SortCols.sort_leaves_length. Qed.
+Print Assumptions sort_leaves_length.
+
+Theorem sortcols_ids : forall asc a t rows out, sortcols asc a t rows = Ok out -> map fst out = map fst rows.
+Proof. exact Proofs_SortCols.sortcols_ids. Qed.
+Print Assumptions sortcols_ids.
+
+Theorem sortcols_rows : forall asc a sz t' rows out,
+  sortcols asc a (TList sz None t') rows = Ok out ->
+  Forall2 (fun r o : Z * value =>
+             fst r = fst o /\ exists l l', snd r = VList l /\ snd o = VList l' /\ length l = length l') rows out.
+Proof. exact Proofs_SortCols.sortcols_rows. Qed.
+Print Assumptions sortcols_rows.
+
+Theorem sortcols_columns : forall asc a sz t' rows out,
+  NoDup (map fst rows) -> sortcols asc a (TList sz None t') rows = Ok out -> sortable t' = true ->
+  forall p, sortcols asc a t' (colv p rows) = Ok (colv p out).
+Proof. exact Proofs_SortCols.sortcols_columns. Qed.
+Print Assumptions sortcols_columns.
+
+Theorem sortcols_columns_nonempty : forall asc a sz t' rows out,
+  NoDup (map fst rows) -> sortcols asc a (TList sz None t') rows = Ok out ->
+  forall p, colv p rows <> [] -> sortcols asc a t' (colv p rows) = Ok (colv p out).
+Proof. exact Proofs_SortCols.sortcols_columns_nonempty. Qed.
+Print Assumptions sortcols_columns_nonempty.
+
+Theorem sortcols_columns_empty : forall asc a sz t' rows out,
+  sortcols asc a (TList sz None t') rows = Ok out -> forall p, colv p rows = [] -> colv p out = [].
+Proof. exact Proofs_SortCols.sortcols_columns_empty. Qed.
+Print Assumptions sortcols_columns_empty.
+
+Theorem enumv_NoDup : forall l, NoDup (map fst (enumv l)).
+Proof. exact Proofs_SortCols.enumv_NoDup. Qed.
+Print Assumptions enumv_NoDup.
+
+Theorem sortcols_shape_partial : forall asc a t,
+  opts_on_leaves t = true -> forall rows out,
+  sortcols asc a t rows = Ok out -> NoDup (map fst rows) ->
+  map (fun jv : Z * value => shape (snd jv)) out = map (fun jv : Z * value => shape (snd jv)) rows.
+Proof. exact Proofs_SortCols2.sortcols_shape_partial. Qed.
+Print Assumptions sortcols_shape_partial.
+
+Theorem sort_spec_preserves_lengths_partial : forall asc a axis t vs ws,
+  opts_on_leaves t = true -> axis_above_strings t axis = true -> Forall (has_type t) vs ->
+  sort_spec asc a axis t vs = Ok ws -> map shape ws = map shape vs.
+Proof. exact Proofs_SortCols3.sort_spec_preserves_lengths_partial. Qed.
+Print Assumptions sort_spec_preserves_lengths_partial.
+
+Theorem no_cross_list_movement : forall asc t rows out,
+  sortcols asc false t rows = Ok out -> NoDup (map fst rows) ->
+  forall q, Permutation (leaves_at q (map snd out)) (leaves_at q (map snd rows)).
+Proof. exact Proofs_SortCols2.no_cross_list_movement. Qed.
+Print Assumptions no_cross_list_movement.
+
+Theorem sort_spec_no_cross_list_movement : forall asc axis t vs ws ax,
+  sort_spec asc false axis t vs = Ok ws -> resolve_axis t 0 axis = Ok ax ->
+  forall q0 l l', zlen q0 = ax ->
+  at_path q0 (VList vs) = Some (VList l) -> at_path q0 (VList ws) = Some (VList l') ->
+  forall q, Permutation (leaves_at q l') (leaves_at q l).
+Proof. exact Proofs_SortCols3.sort_spec_no_cross_list_movement. Qed.
+Print Assumptions sort_spec_no_cross_list_movement.
+
+Theorem argsort_realises_sort : forall asc vs ix s,
+  sort_leaves asc true (enumv vs) = Ok ix -> sort_leaves asc false (enumv vs) = Ok s ->
+  mapM (fun i => match i with VNum (DZ j) => get vs j | _ => Err EValue end) ix = Ok s.
+Proof. exact Proofs_SortCols3.argsort_realises_sort. Qed.
+Print Assumptions argsort_realises_sort.
+
+Theorem argsort_positions : forall asc vs ix,
+  sort_leaves asc true (enumv vs) = Ok ix ->
+  Permutation (map (fun i => match i with VNum (DZ j) => j | _ => -1 end) ix) (iota (zlen vs)).
+Proof. exact Proofs_SortCols3.argsort_positions. Qed.
+Print Assumptions argsort_positions.
+
+Theorem argsort_realises_sort_cols : forall asc sz t' rows outA outS,
+  is_leaf_ty t' = true -> NoDup (map fst rows) ->
+  sortcols asc true (TList sz None t') rows = Ok outA -> sortcols asc false (TList sz None t') rows = Ok outS ->
+  forall p,
+    mapM (fun i => match i with VNum (DZ j) => assocZ j (colv p rows) | _ => Err EValue end) (map snd (colv p outA))
+    = Ok (map snd (colv p outS)).
+Proof. exact Proofs_SortCols3.argsort_realises_sort_cols. Qed.
+Print Assumptions argsort_realises_sort_cols.
